@@ -466,9 +466,9 @@ fn main_case(rng: &mut Rng, idx: usize, out: &mut Out, rt: &tokio::runtime::Runt
 
 /// The debugger's last state is not reset by a new transaction: a session abandoned at a
 /// breakpoint on script offset 0, then the target with the same breakpoint.
-fn stale_debugger_case(rng: &mut Rng, out: &mut Out) {
+fn stale_debugger_case(rng: &mut Rng, out: &mut Out, saved: Option<Scenario>) {
     let cfg = GenCfg { n_contracts: 0, unit_items: 4, ..GenCfg::default() };
-    let scn = gen_scenario(rng, &cfg);
+    let scn = match saved { Some(s) => s, None => gen_scenario(rng, &cfg) };
     let w = &scn.world;
     let bp = Breakpoint::script(0);
     let mut fresh: Vm = Interpreter::with_storage(MemoryInstance::new(), w.storage.clone(), w.interpreter_params());
@@ -495,7 +495,7 @@ fn run_c31(args: &Args, out: &mut Out) {
     let rt = tokio::runtime::Builder::new_current_thread().build().expect("tokio runtime");
     if let Some(f) = &args.replay {
         let v: Value = read_replay(f);
-        if v["kind"] == "stale-debugger" { stale_debugger_case(&mut rng, out); }
+        if v["kind"] == "stale-debugger" { stale_debugger_case(&mut rng, out, Scenario::from_json(&v["scenario"]).ok()); }
         else { out.notes.push("replay of history cases re-runs the generator with the recorded seed (use --seed)".into()); }
         return;
     }
@@ -503,7 +503,7 @@ fn run_c31(args: &Args, out: &mut Out) {
     // Coq elaborates the byte strings of a case in ~1.5 s: the model replays a prefix of the cases, the oracle sees all
     let n_model = if args.thorough() { 1500 } else { 64 };
     for i in 0..n { main_case(&mut rng, i, out, &rt, !args.oracle_only && i < n_model); }
-    for _ in 0..3 { stale_debugger_case(&mut rng, out); }
+    for _ in 0..3 { stale_debugger_case(&mut rng, out, None); }
 }
 
 fn main() {
